@@ -135,6 +135,7 @@ pub fn run(em: &mut Emitter, c: &Case) {
     let key = acc.key();
     let version = c.flags & 0x02000000 != 0;
     let chal = challenge(c.flags, &c.sc, &c.ti, version, 0, 0);
+    crate::alloc_count::reset();
     let (a, b) = UnixStream::pair().expect("socketpair");
     a.set_read_timeout(Some(Duration::from_secs(3))).ok();
     // an earlier, complete and honest exchange on the very same Ntlm object (`pre`): "same" = same CHALLENGE
@@ -196,7 +197,10 @@ pub fn run(em: &mut Emitter, c: &Case) {
     let must_reject = so.faulted1 || match kind.as_str() { "honest" | "appendzero" | "seq" | "ver" | "withnego" => false, "flip" | "longform" | "ber83in" | "berindef" | "bercons" | "trunc" => !same_pka, "off" => c.reply != "off:1", _ => true };
     let must_accept = !so.faulted1 && matches!(kind.as_str(), "honest" | "appendzero" | "ver") || (kind == "off" && c.reply == "off:1") || ((kind == "flip" || kind == "trunc") && same_pka);
     let mut obs = Obs::new(out).nt(status == "ok").tag(Box::leak(kind.clone().into_boxed_str()));
-    if has_pre && !(pre_ok && pre_out.creds.is_some()) { obs = obs.viol("the earlier honest exchange on the same Ntlm object did not complete"); }
+    // memory in proportion to the bytes received (both sides of the exchange run in this process: a few hundred KiB)
+    let peak = crate::alloc_count::max();
+    if peak > (8 << 20) { obs = obs.viol(&format!("allocation request of {} bytes during the CredSSP exchange", peak)); }
+    else if has_pre && !(pre_ok && pre_out.creds.is_some()) { obs = obs.viol("the earlier honest exchange on the same Ntlm object did not complete"); }
     else if so.k.is_none() { obs = obs.viol(&format!("reference server could not complete the exchange: {}", so.note)); }
     else if so.client_pk_ok != Some(true) { obs = obs.viol("client pubKeyAuth does not carry the server certificate key"); }
     else if status == "P" { obs = obs.viol("panic").tag("panic"); }
